@@ -118,8 +118,8 @@ def engine_oracle(f, txn, mode):
         try:
             eng2 = ME.parse_merchants(GR.render_rules(dict(f, rules=keep)), mode)
             res2 = eng2.match(copy.deepcopy(t), data_sources=ROWS)
-            a = (res.merchant, res.category, res.subcategory, sorted(_noaddr(x) for x in res.tags), [x.name for x in res.all_matching_rules])
-            b = (res2.merchant, res2.category, res2.subcategory, sorted(_noaddr(x) for x in res2.tags), [x.name for x in res2.all_matching_rules])
+            a = (res.merchant, res.category, res.subcategory, sorted({_noaddr(x) for x in res.tags}), [x.name for x in res.all_matching_rules])
+            b = (res2.merchant, res2.category, res2.subcategory, sorted({_noaddr(x) for x in res2.tags}), [x.name for x in res2.all_matching_rules])
             if a != b:
                 fails.append({'class': 'failing-rule-not-inert', 'rules': text, 'txn': RC.jtxn(txn), 'mode': mode, 'file': f,
                               'observed': a, 'required (failing rules deleted)': b})
